@@ -154,6 +154,25 @@ def raw_boc(blobs, root_idx, size, has_crc=True):
     return bytes(out)
 
 
+def announced_refs_in_tiny_bags(R, B, rng):
+    """a bag of ONE cell (and of two) whose descriptor announces 1..4 references: every index is necessarily a self reference (0), a backward one or a dangling
+    one (>= cells_num) - there is nothing a one-cell bag could validly refer to.  With CRC and without, data lengths 0..3 bytes, every target value."""
+    for ncells in (1, 2):
+        for k in (1, 2, 3, 4):
+            for nbytes in (0, 1, 3):
+                for target in (0, 1, 2, 255):
+                    for has_crc in (True, False):
+                        root = bytes([k, 2 * nbytes]) + bytes(range(1, nbytes + 1)) + bytes([target] * k)
+                        blobs = [root] + [bytes([0, 2, 0x55])] * (ncells - 1)
+                        if ncells == 2 and target == 1:
+                            continue        # 0 -> 1 is a valid forward reference in a two-cell bag
+                        data = raw_boc(blobs, [0], 1, has_crc)
+                        kind = 'self' if target == 0 else 'dangling'
+                        must_reject(R, B, data, f'announced-refs-{ncells}cell-bag-{kind}', f'a {ncells}-cell bag whose root announces {k} reference(s) to index {target} ({kind})',
+                                    {'cells': ncells, 'announced_refs': k, 'target': target, 'crc': has_crc})
+                        R.count('announced_refs_tiny_bags')
+
+
 MUST_REJECT_REASONS = ('not strictly forward', 'truncated', 'trailing bytes', 'crc mismatch', 'root index', 'cell data length', 'length with crc')
 
 
@@ -284,6 +303,7 @@ def run(R):
             nb += 1
     if R.shard == 0:
         width_product(R, B, rng)
+        announced_refs_in_tiny_bags(R, B, rng)
     # deterministic small bases so that the negative half never depends on what the random classes produced
     for r in (rc.RC(''), rc.RC('1', (rc.RC('0'), rc.RC('0'))), gen.chain(3), gen.ladder(3), gen.rand_dag(rng, 4, max_bits=12)):
         negative(R, B, rng, [r], {'class': 'fixed-small'})
@@ -295,6 +315,7 @@ def run(R):
     R.floor('shifted_bases', 5)
     if R.shard == 0:
         R.floor('width_product_encodings', 1000)
+        R.floor('announced_refs_tiny_bags', 100)
     R.floor('shift:prepended-root-after-valid-parse:reject', 3)
     for v in ('generic', 'idx', 'idx_crc'):
         pass
